@@ -36,6 +36,9 @@ VERIF = os.path.dirname(os.path.dirname(os.path.abspath(__file__)))
 COQ = os.path.join(VERIF, 'coq')
 GEN = os.path.join(COQ, 'gen')
 REPO = os.environ.get('CELLPYLIB_REPO', '/repo')
+SCRATCH = os.path.realpath(REPO) != '/repo'      # running against a scratch copy (mutation testing)
+EVID_DIR = 'evidence/_scratch' if SCRATCH else 'evidence'
+REPLAY_DIR = 'replays/_scratch' if SCRATCH else 'replays'
 SHARD = 400
 COQC_TIMEOUT = 900
 
@@ -241,8 +244,8 @@ def run_property(pid, tier, seed, replay=None):
     mod = importlib.import_module('harness.props.' + pid.lower())
     imports = mod.COQ_IMPORTS
     os.makedirs(GEN, exist_ok=True)
-    os.makedirs(os.path.join(VERIF, 'evidence'), exist_ok=True)
-    os.makedirs(os.path.join(VERIF, 'replays'), exist_ok=True)
+    os.makedirs(os.path.join(VERIF, EVID_DIR), exist_ok=True)
+    os.makedirs(os.path.join(VERIF, REPLAY_DIR), exist_ok=True)
     violations = []          # (replay_path, suffix)
     known_lines = []
     notes = []
@@ -316,7 +319,7 @@ def run_property(pid, tier, seed, replay=None):
     mism.sort()
 
     def write_replay(tag, payload):
-        path = os.path.join('replays', '%s-%d-%s.json' % (pid, seed, tag))
+        path = os.path.join(REPLAY_DIR, '%s-%d-%s.json' % (pid, seed, tag))
         payload = dict(payload, property=pid, seed=seed, tier=tier)
         json.dump(payload, open(os.path.join(VERIF, path), 'w'), indent=1, default=str)
         return path
@@ -452,7 +455,7 @@ def run_property(pid, tier, seed, replay=None):
         'violations': len(violations),
     }
     if not replay:
-        json.dump(evidence, open(os.path.join(VERIF, 'evidence', pid + '.json'), 'w'), indent=1, default=str)
+        json.dump(evidence, open(os.path.join(VERIF, EVID_DIR, pid + '.json'), 'w'), indent=1, default=str)
 
     for line in sorted(set(known_lines)):
         print(line)
